@@ -150,6 +150,61 @@ fn vector_entries(out: &mut Vec<(String, String)>) {
     }
 }
 
+/// binary vector and matrix operations on operand sizes well beyond 6 (sizes that agree modulo 4, 8 and 16 included): a
+/// blocked or unrolled size check must still refuse every mismatched pair
+fn large_size_entries(out: &mut Vec<(String, String)>) {
+    let sizes = [0usize, 1, 3, 5, 8, 9, 11, 13, 16, 17, 24, 32, 33, 64];
+    for &a in &sizes {
+        for &b in &sizes {
+            let mm = a != b;
+            let setup = || (vecr(a, 0), vecr(b, 100));
+            let key = |s: &(Vector<Rat>, Vector<Rat>)| format!("{:?}|{:?}", s.0, s.1);
+            let ar = format!("sizes {} {}", a, b);
+            verdict(out, "&Vector + &Vector (large)", ar.clone(), mm, true, probe(&setup, &key, &|s| { let _ = &s.0 + &s.1; }));
+            verdict(out, "Vector + Vector (large)", ar.clone(), mm, true, probe(&setup, &key, &|s| { let _ = s.0.clone() + s.1.clone(); }));
+            verdict(out, "&Vector - &Vector (large)", ar.clone(), mm, true, probe(&setup, &key, &|s| { let _ = &s.0 - &s.1; }));
+            verdict(out, "Vector - &Vector (large)", ar.clone(), mm, true, probe(&setup, &key, &|s| { let _ = s.0.clone() - &s.1; }));
+            verdict(out, "Vector += Vector (large)", ar.clone(), mm, false, probe(&setup, &key, &|s| { let w = s.1.clone(); s.0 += w; }));
+            verdict(out, "Vector -= Vector (large)", ar.clone(), mm, false, probe(&setup, &key, &|s| { let w = s.1.clone(); s.0 -= w; }));
+            verdict(out, "Vector::dot (large)", ar.clone(), mm, true, probe(&setup, &key, &|s| { let _ = s.0.dot(&s.1); }));
+            let setupf = || (vecf(a), vecf(b));
+            let keyf = |s: &(Vector<f64>, Vector<f64>)| format!("{:?}|{:?}", s.0, s.1);
+            verdict(out, "Vector::dot_f64 (large)", ar.clone(), mm, true, probe(&setupf, &keyf, &|s| { let _ = s.0.dot_f64(&s.1); }));
+        }
+    }
+    let shapes = [(2usize, 9usize), (9, 2), (8, 8), (16, 3), (3, 16), (9, 9), (1, 17), (17, 1), (8, 16), (16, 8)];
+    let key2 = |s: &(Matrix<Rat>, Matrix<Rat>)| format!("{:?}#{}x{}|{:?}#{}x{}", s.0, s.0.rows(), s.0.cols(), s.1, s.1.rows(), s.1.cols());
+    for &(r1, c1) in &shapes {
+        for &(r2, c2) in &shapes {
+            let setup = || (matr(r1, c1, 0), matr(r2, c2, 100));
+            let ar = format!("{}x{} with {}x{}", r1, c1, r2, c2);
+            let mm = r1 != r2 || c1 != c2;
+            verdict(out, "&Matrix + &Matrix (large)", ar.clone(), mm, true, probe(&setup, &key2, &|s| { let _ = &s.0 + &s.1; }));
+            verdict(out, "&Matrix - &Matrix (large)", ar.clone(), mm, true, probe(&setup, &key2, &|s| { let _ = &s.0 - &s.1; }));
+            verdict(out, "Matrix += &Matrix (large)", ar.clone(), mm, false, probe(&setup, &key2, &|s| { let w = s.1.clone(); s.0 += &w; }));
+            verdict(out, "Matrix -= Matrix (large)", ar.clone(), mm, false, probe(&setup, &key2, &|s| { let w = s.1.clone(); s.0 -= w; }));
+            verdict(out, "&Matrix * &Matrix (large)", ar.clone(), c1 != r2, true, probe(&setup, &key2, &|s| { let _ = &s.0 * &s.1; }));
+        }
+        for &b in &sizes {
+            let setup = || (matr(r1, c1, 0), vecr(b, 100));
+            let key = |s: &(Matrix<Rat>, Vector<Rat>)| format!("{:?}#{}x{}|{:?}", s.0, s.0.rows(), s.0.cols(), s.1);
+            let ar = format!("{}x{} with vector {}", r1, c1, b);
+            verdict(out, "&Matrix * &Vector (large)", ar.clone(), b != c1, true, probe(&setup, &key, &|s| { let _ = &s.0 * &s.1; }));
+            verdict(out, "Matrix::set_col (large)", format!("{}x{} col 0 vector {}", r1, c1, b), b != r1, false, probe(&setup, &key, &|s| { let v = s.1.clone(); s.0.set_col(0, v); }));
+            verdict(out, "Matrix::set_row (large)", format!("{}x{} row 0 vector {}", r1, c1, b), b != c1, false, probe(&setup, &key, &|s| { let v = s.1.clone(); s.0.set_row(0, v); }));
+        }
+        let setup1 = || matr(r1, c1, 0);
+        let key1 = |s: &Matrix<Rat>| format!("{:?}#{}x{}", s, s.rows(), s.cols());
+        for i in [0usize, r1.max(c1) - 1, r1.max(c1), r1.max(c1) + 7] {
+            for k in [0usize, r1, r1 + 8] {
+                verdict(out, "Matrix::swap_rows (large)", format!("{}x{} rows {} {}", r1, c1, i, k), i >= r1 || k >= r1, false, probe(&setup1, &key1, &|s| { s.swap_rows(i, k); }));
+            }
+            // equal row arguments: in range a no-op, out of range a refusal
+            verdict(out, "Matrix::swap_rows (equal arguments)", format!("{}x{} rows {} {}", r1, c1, i, i), i >= r1, false, probe(&setup1, &key1, &|s| { s.swap_rows(i, i); }));
+        }
+    }
+}
+
 fn matrix_entries(out: &mut Vec<(String, String)>, nm: usize) {
     let key2 = |s: &(Matrix<Rat>, Matrix<Rat>)| format!("{:?}#{}x{}|{:?}#{}x{}", s.0, s.0.rows(), s.0.cols(), s.1, s.1.rows(), s.1.cols());
     for r1 in 0..=nm {
@@ -865,9 +920,10 @@ fn main() {
         ("Sparse", Box::new(sparse_entries)),
         ("Mesh1D/Mesh2D", Box::new(mesh_entries)),
         ("Polynomial", Box::new(polynomial_entries)),
+        ("sizes beyond 6", Box::new(large_size_entries)),
     ];
     ctx.lattice(
-        "entry-point table: 7 types x all size pairs / arguments",
+        "entry-point table: 7 types x all size pairs / arguments up to 6, and binary vector / matrix operations on 14 sizes and 10 shapes up to 64",
         groups.len() as u64,
         |i| groups[i as usize].0.to_string(),
         |i, acc| {
